@@ -15,5 +15,11 @@ CLAIMS["C20"] = {
     "note": "Trusted: Lean kernel + {propext, Quot.sound}; hand-written model OH/Model/SortedVec.lean; harness/driver. Modelled not verified: sort_unstable+dedup, slice::binary_search (contract proved to determine the result uniquely on sorted input). Cannot exhibit: stack exhaustion of the recursive union on ~60k interleaved elements (observed as an abort in a manual probe, far beyond comment-list sizes).",
     "technique": "Lean 4 theorems (induction, fun_induction) on a hand-written model + exhaustive/random correspondence",
 }
+CLAIMS["C14"] = {
+    "text": "All clauses of C14 are Lean theorems about the model of Schedule for arbitrary (overlapping, nested, adjacent, empty, inverted) inputs and any finite sequence of from_ranges/addition: WF invariant, from_ranges = union of inputs, overlay semantics of addition (most recent covering schedule wins), closure over every API-reachable schedule, iteration = gap-free alternating tiling with closed in the holes and no panic. Tie to the code: histories executed on the real type (raw ranges through the guarded accessor) with the overlay/tiling predicates evaluated on the implementation's output and model equality incl. comments.",
+    "design_ref": "§5 C14",
+    "note": "Trusted: Lean kernel + standard axioms; hand-written model OH/Model/Schedule.lean; harness/driver; the hook accessor. The former defect D6 (from_ranges lost nested ranges) is repaired in /repo (fix: 656bbfa) and the model follows the repaired code; `fromRangesBuggy_covers_fails` keeps the refutation of the old code. Not proved (driver only): exact comments of iterated ranges; the strongest 'isolated range keeps its comments' clause.",
+    "technique": "Lean 4 theorems (fun_induction + grind, list induction) on a hand-written model + exhaustive small-grid and random history correspondence",
+}
 ALL = [f"C{i:02d}" for i in range(1, 21)]
 NOT_APPLICABLE = {p: PENDING for p in ALL if p not in CLAIMS}
